@@ -98,5 +98,5 @@ fn run_a(line: &str) -> String {
 }
 
 fn main() {
-    serve(|line| if line.starts_with('A') { run_a(line) } else { run_r(line) });
+    serve(|line| if line.starts_with('A') { run_a(line) } else if line.starts_with('P') { run_probe() } else { run_r(line) });
 }
